@@ -592,12 +592,19 @@ def mkkey(k):
 def index_strategy(draw):
     sp = draw(st.booleans())
     A = draw(c16.sp_st()) if sp else draw(c16.dn_st())
-    op = draw(st.sampled_from(["get1", "get2", "set1", "set2", "ctor", "size", "fromlist"]))
+    op = draw(st.sampled_from(["get1", "get2", "set1", "set2", "ctor", "size", "size", "fromlist", "setself"]))
     n1 = A["m"] * A["n"]
+    if op == "setself":
+        # an integer matrix used as its own index set: A[A] = v, A[A, j] = v
+        L = draw(st.integers(1, 6))
+        vals = [draw(st.integers(-L, L - 1)) for _ in range(L)]
+        return dict(op=op, A=dict(tc="i", m=L, n=1, v=[v / 2.0 for v in vals]), vals=vals,
+                    rhs=draw(st.sampled_from(["num", "dense"])), two=draw(st.booleans()))
     c = dict(op=op, A=A, key=draw(xkey(n1 if op.endswith("1") else A["m"])), key2=draw(xkey(A["n"])),
              rhs=draw(st.sampled_from(["num", "dense", "sparse", "dense1", "huge"])),
              I=[draw(xint(4)) for _ in range(draw(st.integers(0, 4)))], J=[draw(xint(4)) for _ in range(draw(st.integers(0, 4)))],
-             size=[draw(st.sampled_from([0, 1, 2, 3, -1, 2 ** 62, 2 ** 45, -2 ** 31, 2 ** 63 - 1])), draw(st.sampled_from([0, 1, 2, 3, -1, 2 ** 62, 2 ** 45]))])
+             size=[draw(st.sampled_from([0, 1, 2, 3, -1, 2 ** 62, 2 ** 45, -2 ** 31, 2 ** 63 - 1, 65536, 46341, 2 ** 31 - 1, 2 ** 16 * 3])),
+                   draw(st.sampled_from([0, 1, 2, 3, -1, 2 ** 62, 2 ** 45, 65536, 46341, 2 ** 31 - 1, 2 ** 16]))])
     return c
 
 
@@ -648,8 +655,27 @@ def index_oracle(case, stats=None):
             inferable = all(not (10 ** 6 < v < 2 ** 40) for v in I[:nn] + J[:nn])     # an inferred size of 10^6..2^40 columns would really be allocated
             res = spmatrix([1.0] * nn, I[:nn], J[:nn], tuple(sz)) if (sz[0] != 3 or not inferable) else spmatrix([1.0] * nn, I[:nn], J[:nn])
         elif op == "size":
+            nel = A.size[0] * A.size[1]
             A.size = tuple(case["size"])
             res = A
+            if A.size[0] * A.size[1] != nel:
+                raise Violation("A.size = %r was accepted for a matrix with %d elements (size now %r, len %d)" % (
+                    tuple(case["size"]), nel, A.size, len(A)))
+        elif op == "setself":
+            vals = case["vals"]
+            L = len(vals)
+            rhsv = [10 + k for k in range(L)]
+            rhs = 7 if case["rhs"] == "num" else matrix(rhsv, (L, 1), "i")
+            want = list(vals)
+            for k, i in enumerate(vals):
+                want[i % L] = 7 if case["rhs"] == "num" else rhsv[k]       # the indices are the values A had before
+            if case["two"]:
+                A[A, 0] = rhs
+            else:
+                A[A] = rhs
+            res = A
+            if list(A) != want:
+                raise Violation("A[A] = v with A = %r gave %r; indexing with the values A had before the assignment gives %r" % (vals, list(A), want))
         else:
             sz = case["size"]
             res = matrix(list(A)[:4], tuple(sz)) if sz[0] * sz[1] != 0 or True else None
@@ -665,6 +691,8 @@ def index_oracle(case, stats=None):
             c16.check_ccs(M_, "%s with extreme indices" % op)
         if isinstance(M_, (matrix, spmatrix)) and (M_.size[0] < 0 or M_.size[1] < 0):
             raise Violation("%s produced a matrix of size %r" % (op, M_.size))
+        if isinstance(M_, matrix) and len(M_) != M_.size[0] * M_.size[1]:
+            raise Violation("%s left a dense matrix of size %r with %d elements" % (op, M_.size, len(M_)))
     if isinstance(err, SystemError):
         raise Violation("%s with extreme indices: the extension returned inconsistently (SystemError: %s)" % (op, err))
     if stats is not None:
